@@ -186,6 +186,7 @@ def run(tier, seed, only_case=None):
     if only_case is None:
         r.model_check("MC_Ingest", "MC_Ingest_quick.cfg" if tier == "quick" else "MC_Ingest_thorough.cfg", timeout=3000)
         r.model_check("MC_Ingest", "MC_Ingest_bags.cfg")
+        r.expect_refuted("MC_Ingest", "MC_Ingest_pinned.cfg", "RejectsExactlyOutOfChromPinned")     # the pinned (non-strict) bound is refuted
         cs = cases(tier, seed)
     else:
         cs = [only_case]
